@@ -143,3 +143,70 @@ func runC02(n, m int) {
 	verifReach("applied")
 }
 
+
+// ---- two consecutive changes in one didChange batch (the second is interpreted on the result of the first)
+
+func refApply(doc []byte, sl, sc, el, ec uint32, text []byte) (out []byte, ok bool, class string) {
+	so, sok, a1, r1, c1 := refOffset(doc, sl, sc)
+	eo, eok, a2, r2, c2 := refOffset(doc, el, ec)
+	if !(sok && eok && so <= eo) {
+		return nil, false, ""
+	}
+	switch {
+	case a1 || a2:
+		class = "C02-astral"
+	case r1 || r2:
+		class = "C02-lone-cr"
+	case c1 || c2:
+		class = "C02-no-clamp"
+	}
+	out = make([]byte, 0, len(doc)+len(text))
+	out = append(out, doc[:so]...)
+	out = append(out, text...)
+	out = append(out, doc[eo:]...)
+	return out, true, class
+}
+
+func VerifRun_C02b() {
+	n, m := verifParam("N"), verifParam("M")
+	doc := verifBytes("doc", n)
+	verifAssume(refValidUTF8(doc))
+	sl, sc := uint32(verifRange("sl", 0, n)), uint32(verifRange("sc", 0, n+1))
+	el, ec := uint32(verifRange("el", 0, n)), uint32(verifRange("ec", 0, n+1))
+	t1 := verifBytes("t1", m)
+	d1, ok1, class1 := refApply(doc, sl, sc, el, ec, t1)
+	verifAssume(ok1 && refValidUTF8(d1))
+	n2 := len(d1)
+	sl2, sc2 := uint32(verifRange("sl2", 0, n2)), uint32(verifRange("sc2", 0, n2+1))
+	el2, ec2 := uint32(verifRange("el2", 0, n2)), uint32(verifRange("ec2", 0, n2+1))
+	t2 := verifBytes("t2", m)
+	want, ok2, class2 := refApply(d1, sl2, sc2, el2, ec2, t2)
+	verifAssume(ok2)
+	verifReach("conformant")
+	class := class1
+	if class == "" {
+		class = class2
+	}
+	fc := CreateFileMapCache()
+	got, err := fc.ApplyContentChanges("f", doc, []lsp.TextDocumentContentChangeEvent{
+		{Range: &lsp.Range{Start: lsp.Position{Line: sl, Character: sc}, End: lsp.Position{Line: el, Character: ec}}, Text: string(t1)},
+		{Range: &lsp.Range{Start: lsp.Position{Line: sl2, Character: sc2}, End: lsp.Position{Line: el2, Character: ec2}}, Text: string(t2)}})
+	if err != nil {
+		verifViolation(class, "batch of two ranges that the LSP position model accepts is rejected")
+		return
+	}
+	verifObserve("got", string(got))
+	same := len(got) == len(want)
+	if same {
+		for i := range got {
+			if got[i] != want[i] {
+				same = false
+				break
+			}
+		}
+	}
+	if !same {
+		verifViolation(class, "batch of two edits gives the wrong text")
+	}
+	verifReach("applied")
+}
